@@ -149,3 +149,12 @@ where
 {
     spawn_named("spawned", fut)
 }
+
+/// `tokio::task::spawn_blocking`: there are no other threads in the simulation, the closure runs right away
+pub fn spawn_blocking<F, R>(f: F) -> JoinHandle<R>
+where
+    F: FnOnce() -> R + Send + 'static,
+    R: Send + 'static,
+{
+    spawn_named("blocking", async move { f() })
+}
